@@ -600,6 +600,7 @@ pub fn server_case_from_bytes(data: &[u8]) -> Option<ServerCase> {
         history: sel[5] % 3,
         initial_rotations: sel[6] % 3,
         key_seed: sel[7] as u64,
+        id_offset: if sel[6] & 0x80 != 0 { u32::MAX } else { 0 },
         reqs: vec![ReqItem { addr, recv_ts: u64::from_be_bytes([sel[0], sel[1], sel[2], sel[3], sel[4], sel[5], sel[6], sel[7]]), now_ts: 0x1234_5678_9abc_def0, rotate_before: false, req: ReqSpec::Raw(rest[..rest.len().min(1024)].to_vec()) }],
     })
 }
